@@ -67,6 +67,7 @@ type Engine struct {
 	simpCache sync.Map
 	tmpl      *Path
 	tmplMu    sync.Mutex
+	forkSites map[string]int
 	noTemplate bool
 	verbose   bool
 	solverLog string
@@ -156,7 +157,7 @@ func NewEngine(cfg *CheckCfg) (*Engine, error) {
 	prog.Build()
 	e := &Engine{prog: prog, pkgs: pkgs, cfg: cfg, modPath: "github.com/mycoria/mycoria",
 		stubs: map[string]*ssa.Function{}, initPkgs: map[string]bool{}, maxInstrs: 20_000_000, maxElems: 64,
-		pdoms: map[*ssa.Function]*pdomInfo{}, msCache: map[string]*ssa.Function{}, timeoutMs: 60000}
+		pdoms: map[*ssa.Function]*pdomInfo{}, forkSites: map[string]int{}, msCache: map[string]*ssa.Function{}, timeoutMs: 60000}
 	e.noop = append(e.noop, cfg.Noop...)
 	for _, ip := range cfg.InitPkgs {
 		e.initPkgs[ip] = true
@@ -329,6 +330,20 @@ func (e *Engine) explore(h *HarnessCfg, workers int) *HarnessResult {
 					return
 				}
 				fmt.Printf("  [%s] paths=%d queue=%d active=%d ends=%v obligations=%d\n", h.Name, res.Paths, len(queue), active, res.EndKinds, res.Stats.Obligations)
+				e.mu.Lock()
+				type kv struct {
+					k string
+					v int
+				}
+				var top []kv
+				for k, v := range e.forkSites {
+					top = append(top, kv{k, v})
+				}
+				sort.Slice(top, func(i, j int) bool { return top[i].v > top[j].v })
+				for i := 0; i < len(top) && i < 4; i++ {
+					fmt.Printf("      forks %6d at %s\n", top[i].v, top[i].k)
+				}
+				e.mu.Unlock()
 				mu.Unlock()
 			}
 		}()
